@@ -27,9 +27,10 @@ class Edits:
         self.ins = []     # (offset, seq, text)
         self.rep = []     # (a, b, text)
         self._seq = 0
-    def insert(self, off, text, after=False):
+    def insert(self, off, text, after=False, prio=0):
+        # prio 0: statement-level text (ghost statements, let-bindings); prio 1: expression wrappers opened at the same offset (vx_add(, vx_apply()
         self._seq += 1
-        self.ins.append((off, self._seq, text))
+        self.ins.append((off, prio * 1000000 + self._seq, text))
     def replace(self, a, b, text):
         for (x, y, _) in self.rep:
             if not (b <= x or y <= a):
@@ -165,6 +166,7 @@ def GhostArg(sel, text): return ('ghostarg', sel, text)
 def Closure(k, header): return ('closure', k, header)
 def DynCall(k, wrapper): return ('dyncall', k, wrapper)              # rule 7: k-th `<expr>?(args)` -> wrapper(<expr>?, args)
 def DynCallId(name, k, wrapper): return ('dyncallid', name, k, wrapper)   # rule 7: k-th `name(args)` -> wrapper(name, args)
+def LetType(sel, ty): return ('lettype', sel, ty)     # rule 29: an explicit type on a `let` whose inferred type is needed by an invariant
 def Wrap(sel, before, after): return ('wrap', sel, before, after)     # wrap the k-th call expression textually: before + expr + after
 
 def apply_fn(f, ed, spec, counters, mode='full', probe=False):
@@ -336,6 +338,14 @@ def _apply_ops(f, fn, v, ed, spec, ops, counters):
             ed.insert(t[ci].a, wrapper + '(')
             ed.replace(t[ci + 1].a, t[ci + 1].b, ', ')
             counters['rule7_dyn_call'] = counters.get('rule7_dyn_call', 0) + 1
+        elif kind == 'lettype':
+            _, sel, ty = op
+            st_ = v.select(sel)
+            j = st_.i0 + 1
+            while t[j].s != '=' and j < st_.i1: j += 1
+            if t[j].s != '=' or any(t[q].s == ':' for q in range(st_.i0, j)): raise AnchorLost('%s: %s cannot take a type annotation' % (spec.key, sel))
+            ed.insert(t[j - 1].b, ': ' + ty)
+            counters['rule29_let_type'] = counters.get('rule29_let_type', 0) + 1
         elif kind == 'mapcollect':
             pass      # applied by rewrite_map_collect (whole-function rule 26)
         elif kind == 'wrap':
@@ -394,7 +404,7 @@ def rewrite_dyn_calls(f, fn, ed, counters):
             callee = (a0, i + 1)
         if callee is None: continue
         po = callee[1]; pc = t[po].mate
-        ed.insert(t[callee[0]].a, 'vx_apply(')
+        ed.insert(t[callee[0]].a, 'vx_apply(', prio=1)
         if pc == po + 1:
             ed.replace(t[po].a, t[pc].b, ', ())')
         else:
@@ -430,7 +440,7 @@ def fold_string_concat(f, fn, ed, counters):
         if not ('"' in chain or '.to_string()' in chain or 'expr()' in chain or '&' in chain):
             continue          # no syntactic evidence of a String operand: integer arithmetic, left alone
         n = len(plus)
-        ed.insert(t[start].a, 'vx_add(' * n)
+        ed.insert(t[start].a, 'vx_add(' * n, prio=1)
         for k, p in enumerate(plus):
             # right operand ends before the next plus / chain end
             ed.replace(t[p].a, t[p].b, ',')
